@@ -1,7 +1,7 @@
 (* Proofs/Alias.v — facts about the thin entry points of Model/Alias.v: each inherits the theorem of the core it wraps;
    the total-valuation mutators are point updates of a fixed-length vector. *)
 From Coq Require Import List Arith NArith Bool Lia. Import ListNotations.
-From BddVerif Require Import Model.Bdd Model.Apply Model.Ops Model.Serial Model.Expr Model.OptDnf Model.Alias
+From BddVerif Require Import Model.Bdd Model.Apply Model.Ops Model.Serial Model.Expr Model.OptDnf Model.VarSet Model.Dot Model.Alias
   Proofs.Sem Proofs.Canon Proofs.SerialIO Proofs.SerialBytes Proofs.SerialText Proofs.ExprShow Proofs.ExprParse Proofs.ExprEval.
 Open Scope N_scope.
 
@@ -150,3 +150,12 @@ Qed.
 
 Lemma val_all_num_vars c n : n < 65536 -> val_num_vars (val_all c n) = n.
 Proof. intros L. unfold val_num_vars, val_all. rewrite repeat_length, N2Nat.id. now apply N.mod_small. Qed.
+
+(* ---- write_as_dot_string into a writer with partial writes / interruptions: nothing is lost *)
+Theorem dot_write_clean b names pruned sched text : clean sched -> dot_of_names b names pruned = Ok text ->
+  dot_write_sched_m b names pruned sched = Ok (true, text).
+Proof.
+  intros C D. unfold dot_write_sched_m. rewrite D. cbn [bind].
+  destruct (write_all_clean sched C text []) as (s' & E & _). rewrite E. cbn [fst snd].
+  now rewrite app_nil_r, rev_involutive.
+Qed.
